@@ -194,6 +194,12 @@ func (g *group) wrapExcessAliases(grid [][]Candidate, descriptions []string) {
 		breakeven += width + 1
 	}
 
+	// Always keep at least one column: with none, wrapping a
+	// row below never consumes it and the loop never ends.
+	if maxColumns < 1 {
+		maxColumns = 1
+	}
+
 	var rows [][]Candidate
 
 	for rowIndex := range grid {
@@ -208,7 +214,10 @@ func (g *group) wrapExcessAliases(grid [][]Candidate, descriptions []string) {
 	}
 
 	g.rows = rows
-	g.columnsWidth = g.columnsWidth[:maxColumns]
+
+	if maxColumns < len(g.columnsWidth) {
+		g.columnsWidth = g.columnsWidth[:maxColumns]
+	}
 }
 
 // prepareValues ensures all of them have a display, and starts
